@@ -122,3 +122,14 @@ CLAIMS["C28"] = {"engine": "store-trace", "level": "exploration",
                  "text": "properties values are encoded by the real inline and packed encoders and through Inscription::new (with/without compression) and decoded by the real decoder; TLC requires the decoded value to equal the original in every encoding; brotli-compressed property fields with expansion ratios around 30:1 and sizes around 4,000,000 bytes must be refused beyond min(30 x len, 4,000,000) and accepted within it; arbitrary bytes never panic",
                  "note": "trusted: TLC, the harness, minicbor/brotli byte syntax (exercised, not specified); the decompression bound is observed through a guarded length hook",
                  "technique": "TLC trace validation of recorded encode/decode pairs and decompression outcomes (StoreTrace)"}
+
+ENGINES.append({"name": "wallet-runes", "path": "spec/WalletRunes.tla", "serves_properties": ["C22", "C23"],
+                "kind_free_text": "TLA+ model of the wallet's rune transaction constructors (input selection, output layout, edicts) composed with the rune protocol (RuneRules) and a node that funds with any unlocked output; WalletModel is checked exhaustively by TLC; WalletTrace validates the real `ord wallet` commands run against a mock node and the real index"})
+CLAIMS["C22"] = {"engine": "wallet-runes", "level": "model_checking",
+                 "text": "TLC explores every wallet of up to 2 (thorough: 3) outputs over 2 runes with balances 0..2, inscribed or not, every send/burn request with amounts 0..3 and every split file of up to 2 outputs, builds the transaction as the wallet does, applies the rune protocol and checks: zero is rejected, each recipient gets exactly what was asked, exactly the asked amount is burned, everything else returns to wallet outputs, nothing lands elsewhere. The real commands (`ord wallet send|burn|split`, subprocesses against a mock node and the real explorer) are run on seeded random inventories; each broadcast transaction is mined and indexed and TLC evaluates the same clauses on the balances the real index reports (this found zero meaning 'all' in send and burn, now repaired); a second pass requires the observed transaction to equal the model's and the index's balances to equal RuneRules' (MODEL-DRIFT only)",
+                 "note": "trusted: TLC, the harness, mockcore as the node; amounts are small integers; the exhaustive model abstracts values, fees and scripts",
+                 "technique": "TLC model checking of the wallet rune constructors composed with the rune rules (WalletModel) + TLA+ trace validation of the real commands against the real index (WalletTrace)"}
+CLAIMS["C23"] = {"engine": "wallet-runes", "level": "model_checking",
+                 "text": "in the exhaustive model the node may fund with ANY unlocked wallet outputs; the invariant is that no inscribed or runic output other than the command's subject is spent (violated when the lock step is removed). For every real node-funded command run by the driver (send bitcoin, mint, split, send and burn runes) TLC checks on the recorded trace that every inscribed or runic wallet output that is not the subject was in the node's locked set after the command, that the broadcast transaction spends none of them, and that it spends only wallet outputs; all non-cardinal outputs are made larger than any cardinal one so that the mock node's largest-first funding would pick an unlocked one",
+                 "note": "trusted: TLC, the harness, mockcore's lockunspent/fundrawtransaction; offer creation is exercised by the C24 driver, not here",
+                 "technique": "TLC model checking with a nondeterministic funding node (WalletModel) + TLA+ trace validation of the locked set and inputs of real commands (WalletTrace)"}
